@@ -3,6 +3,7 @@
   Property theorems only; helper lemmas live in Kingdon/Lemmas.
 -/
 import Kingdon.Lemmas.Names
+import Kingdon.Lemmas.CfgSign
 namespace Kingdon.C01
 
 /-- Blade multiplication of the reference table is associative: for every dimension (length of `sig`),
@@ -47,5 +48,66 @@ example : ([2, 0] : List Nat).Nodup ∧ ([1, 2] : List Nat).Nodup ∧ Valid [1, 
   · intro g hg; simp at hg; rcases hg with rfl | rfl <;> simp
   · intro g hg; simp at hg; rcases hg with rfl | rfl <;> simp
   · decide
+
+/-! ### the clauses of C01 for the model of the real `Algebra` (any dimension, signature ordering, start
+index, generator order, blade spelling): `c.admissible = true` is a decidable check, see the examples -/
+
+open Cfg in
+/-- **Twist theorem**: the stored sign is the canonical Clifford cocycle of the bit-ordered metric twisted by the
+    orientations of the names of the three blades involved. -/
+theorem stored_sign_is_twisted_cocycle (c : Cfg) (h : c.admissible = true) (I J : Nat)
+    (hI : I < 2 ^ c.d) (hJ : J < 2 ^ c.d) :
+    c.computeSign I J = c.epsK I * c.epsK J * c.epsK (I ^^^ J) * csign c.sigBits I J :=
+  computeSign_twist c (adm_of_admissible c h) I J hI hJ
+
+open Cfg in
+/-- clause 1: each basis vector squares to its signature entry (looked up by the vector's *label*) -/
+theorem basis_vector_squares_to_signature (c : Cfg) (h : c.admissible = true) (j : Nat) (hj : j < c.d) :
+    c.computeSign (2 ^ j) (2 ^ j) = c.metric (c.vecs[j]!) :=
+  gen_square c (adm_of_admissible c h) j hj
+
+open Cfg in
+/-- clause 2: distinct basis vectors anticommute and their product is a non-zero blade -/
+theorem basis_vectors_anticommute (c : Cfg) (h : c.admissible = true) (j k : Nat)
+    (hj : j < c.d) (hk : k < c.d) (hjk : j ≠ k) :
+    c.computeSign (2 ^ j) (2 ^ k) = - c.computeSign (2 ^ k) (2 ^ j) ∧
+    (c.computeSign (2 ^ j) (2 ^ k) = 1 ∨ c.computeSign (2 ^ j) (2 ^ k) = -1) :=
+  gen_anticommute c (adm_of_admissible c h) j k hj hk hjk
+
+open Cfg in
+/-- clause 3: blade multiplication with the stored table is associative -/
+theorem stored_table_associative (c : Cfg) (h : c.admissible = true) (I J L : Nat)
+    (hI : I < 2 ^ c.d) (hJ : J < 2 ^ c.d) (hL : L < 2 ^ c.d) :
+    c.computeSign I J * c.computeSign (I ^^^ J) L = c.computeSign J L * c.computeSign I (J ^^^ L) :=
+  computeSign_cocycle c (adm_of_admissible c h) I J L hI hJ hL
+
+open Cfg in
+/-- clause 4: a blade named e_ij..k equals the ordered product e_i e_j .. e_k computed with the stored table -/
+theorem named_blade_is_ordered_product (c : Cfg) (h : c.admissible = true) (K : Nat) (hK : K < 2 ^ c.d) :
+    c.prodWord (c.nameOf K) = (1, K) :=
+  named_blade_is_product c (adm_of_admissible c h) K hK
+
+open Cfg in
+/-- non-canonical spellings: the blade returned for a permuted spelling is the canonical blade times the
+    parity of the reordering -/
+theorem noncanonical_spelling_sign (c : Cfg) (h : c.admissible = true) (sp n : List Nat)
+    (hn : n ∈ c.basis) (hp : sp.Perm n) :
+    ∃ canon swaps, c.blade2canon sp = some (canon, swaps) ∧ canon ∈ c.basis ∧ canon.Perm sp ∧
+      evalWord c.sigBits (c.wordOf sp) = SB.smul ((-1) ^ swaps) (evalWord c.sigBits (c.wordOf canon)) :=
+  blade2canon_sound c (adm_of_admissible c h) sp n hn hp
+
+/-- the Cayley table reported by the algebra is that same table (by construction of `Cfg.cayley`) -/
+theorem cayley_is_table (c : Cfg) (nI nJ : List Nat) :
+    c.cayley nI nJ =
+      (if c.computeSign (c.binOf nI) (c.binOf nJ) = 0 then (0, [])
+       else (c.computeSign (c.binOf nI) (c.binOf nJ), c.nameOf (c.binOf nI ^^^ c.binOf nJ))) := rfl
+
+/-- non-vacuity: 3DPGA with kingdon's named basis, STAP's signature with a default basis, and a reordered
+    3-D basis with spellings e31, e21 are admissible -/
+def cfg3DPGA : Cfg := Cfg.custom [0, 1, 1, 1]
+  [[], [1], [2], [3], [0], [0,1], [0,2], [0,3], [1,2], [3,1], [2,3], [0,3,2], [0,1,3], [0,2,1], [1,2,3], [0,1,2,3]]
+example : cfg3DPGA.admissible = true := by decide
+example : (Cfg.default [0, 1, 1, 1, -1] 0).admissible = true := by decide +kernel
+example : (Cfg.custom [1, -1, 0] [[], [3], [1], [2], [3,1], [2,1], [2,3], [2,3,1]]).admissible = true := by decide
 
 end Kingdon.C01
